@@ -35,6 +35,12 @@ def boxMap (_ : Bytes) : Option (List Box) := some [⟨"C2PA", 0, 0, true, false
 
 def handler : Handler := ⟨write, remove, read, locations, boxMap, write⟩
 
+/-- Specification-side lexer to layer A: a non-empty sidecar file is one manifest segment. -/
+def segs (b : Bytes) : List Seg := if b.isEmpty then [] else [⟨.manifest, "C2PA", b⟩]
+
+/-- Layer-A format instance of the sidecar: the wrapping is the identity. -/
+def fmt : Fmt := ⟨id, fun w => some w, fun _ => 0⟩
+
 end Sidecar
 
 def pngHandler : Handler :=
